@@ -950,4 +950,29 @@ theorem C01_plain_modifiers (mods : List TK) (h : mods.all (fun k => k != .and &
 
 example : [TK.minus, .question, .at].all (fun k => k != .and && k != .plus) = true := by decide
 
+/-! ### well-spelledness of printed pieces: building blocks -/
+
+/-- `wellSpelledNext` (well spelled when followed by a given character) of a concatenation: the
+    look-ahead of the first part is the first character of the second part — or the outer
+    look-ahead when the second part prints nothing.  With it the well-spelledness of a spelled
+    component reduces to its pieces (marker, modifiers, name, braces, quantity, note), each with
+    the first character of what follows. -/
+theorem C01_well_spelled_next_append (cs : CharSpec) (nx : Option Char) (a b : List Tok) :
+    wellSpelledNext cs nx (a ++ b) = (wellSpelledNext cs ((render b).head?.or nx) a && wellSpelledNext cs nx b) :=
+  rtin_wellSpelledNext_append cs nx a b
+
+/-- The one-character tokens of the syntax (`@ # ~ { } ( ) % | : = ? + & / . ,` …: the kinds of the
+    lexer's single-character table) are well spelled whatever follows them: the seams after a
+    marker, a brace, `%`, `|`, `:` need no condition.
+    Partial with respect to the goal "printer output is well spelled in closed form": for the
+    multi-character kinds (words, integers, whitespace, `-`, `>`, comments, escapes) the condition
+    is `spellOK` itself, on the leaf tokens and the character after them; no closed form per leaf
+    family is given. -/
+theorem C01_well_spelled_marker_partial (cs : CharSpec) (k : TK) (c : Char) (nx : Option Char) (h : singleKind c = some k)
+    (hk : k ≠ .escaped ∧ k ≠ .metaStart ∧ k ≠ .textStep ∧ k ≠ .minus ∧ k ≠ .lineComment ∧ k ≠ .blockComment ∧
+      k ≠ .newline ∧ k ≠ .int ∧ k ≠ .zeroInt ∧ k ≠ .ws ∧ k ≠ .punct ∧ k ≠ .word) :
+    spellOK cs k [c] nx = true := rtin_spellOK_single cs k c nx h hk
+
+example : singleKind '@' = some .at ∧ singleKind '{' = some .openBrace ∧ singleKind '%' = some .percent := by decide
+
 end Cook
